@@ -9,7 +9,8 @@ def run(ctx):
     r1 = vlib.tlc_check(ctx.scratch, "ServerImpl", "ServerImpl_r1.cfg", workers=4)
     ra = vlib.tlc_check(ctx.scratch, "ServerImpl", "ServerImpl_norecover.cfg", workers=1, expect_violation="HealthyServed")
     rb = vlib.tlc_check(ctx.scratch, "ServerImpl", "ServerImpl_noretry.cfg", workers=1, expect_violation="KeepsAccepting")
-    ctx.log("R1: ServerImpl %d distinct states: isolation invariants hold; without recover / without retry on temporary accept errors they are violated, as they must" % r1["distinct"])
+    rc_ = vlib.tlc_check(ctx.scratch, "ServerImpl", "ServerImpl_unseq.cfg", workers=1, expect_violation="NoDrop")
+    ctx.log("R1: ServerImpl %d distinct states: isolation invariants hold; without recover / without retry on temporary accept errors they are violated, and two undecodable inputs not sequenced on the receipt of the first report lose the second report (one-slot non-blocking offer), as they must" % r1["distinct"])
     if ctx.replay:
         cases = [json.load(open(ctx.replay))["case"]]
         g = dict(generated=0, distinct=0)
@@ -51,8 +52,8 @@ def run(ctx):
             v.report("%s:%s:temps=%s" % (reason, "+".join(kinds), "yes" if any(line["case"]["temps"]) else "no"), line["case"],
                      detail="conns=%s reports=%d accepted=%d serve_returned=%s" % (json.dumps(line["conns"]), line["reports"], line["accepted"], line["serve_returned"]))
     keys = set(json.dumps(c, sort_keys=True) for c in cases)
-    cov = dict(states=r1["distinct"] + ra["distinct"] + rb["distinct"] + g["distinct"] + st["distinct"],
-               transitions=r1["generated"] + ra["generated"] + rb["generated"] + g["generated"] + st["generated"],
+    cov = dict(states=r1["distinct"] + ra["distinct"] + rb["distinct"] + rc_["distinct"] + g["distinct"] + st["distinct"],
+               transitions=r1["generated"] + ra["generated"] + rb["generated"] + rc_["generated"] + g["generated"] + st["generated"],
                traces_validated_against_impl=len(lines), evaluations=len(lines), distinct_nontrivial=len(keys),
                rule="R1: spec/ServerImpl.tla for 3 connections x 2 messages x <= 2 temporary accept errors anywhere in the accept sequence, every interleaving; R2: 2-3 connections x messages x every placement of "
                     "one (thorough: two) fault(s) among {handler panic, undecodable message, disconnect between messages, disconnect inside a message} x four patterns of temporary accept errors (before / between / after accepts), "
